@@ -240,8 +240,10 @@ def degree_profile(rt):
 # builders
 # ---------------------------------------------------------------------------
 
-def build_ns(n):
-    return shapes.build_namespace(shapes.plain_history(n))
+def build_ns(n, m=None):
+    """Namespace T0..T(n-1) for the tree's leaves (+ one taxon per extra matrix row that is not on the tree)."""
+    extra = len(m.get("extra_rows") or []) if m is not None else 0
+    return shapes.build_namespace(shapes.plain_history(n + extra))
 
 
 def build_tree(spec, ns, taxa, rooting):
@@ -252,7 +254,7 @@ def build_matrix(m, ns, taxa):
     import dendropy
     cls = getattr(dendropy, TYPES[m["dtype"]]["cls"])
     d = {}
-    for i, row in enumerate(m["rows"]):
+    for i, row in enumerate(list(m["rows"]) + list(m.get("extra_rows") or [])):
         d[taxa[i]] = row
     return cls.from_dict(d, taxon_namespace=ns)
 
@@ -333,7 +335,7 @@ def check_score(ctx, case):
     nchar = len(m["rows"][0])
     dtype = m["dtype"]
 
-    ns, taxa, _ = build_ns(n)
+    ns, taxa, _ = build_ns(n, m)
     tree = build_tree(spec, ns, taxa, rooting)
     mat = build_matrix(m, ns, taxa)
     rt = snap(ctx, tree, "base")
@@ -365,6 +367,8 @@ def check_score(ctx, case):
             ctx.cls("score.gap_treatment_matters")
     if MISSING in cells:
         ctx.cls("score.has_missing")
+    if m.get("extra_rows"):
+        ctx.cls("score.matrix_has_rows_for_taxa_not_on_tree")
     if any(len(TYPES[dtype]["table"].get(s, "x")) > 1 for s in cells):
         ctx.cls("score.has_ambiguity_code")
     if weights is not None and want != sum(changes):
@@ -653,6 +657,12 @@ def score_cases(draw, max_leaves, max_chars):
     spec, rooting, n = draw(trees(max_leaves))
     m = draw(matrices(n, max_chars))
     perm = shapes.permute_children(draw, spec)
+    if draw(st.integers(0, 3)) == 0:
+        # rows for taxa of the same namespace that are not on the tree (they must not influence the score)
+        cell = st.sampled_from(TYPES[m["dtype"]]["all"])
+        width = len(m["rows"][0])
+        m["extra_rows"] = draw(st.lists(st.lists(cell, min_size=width, max_size=width).map("".join),
+                                        min_size=1, max_size=2))
     return {"spec": spec, "rooting": rooting, "m": m, "perm_spec": perm}
 
 
@@ -686,9 +696,9 @@ def run(ctx):
     quick = ctx.tier == "quick"
     max_leaves = 9 if quick else 30
     max_chars = 6 if quick else 12
-    n_score = 4000 if quick else 24000
-    n_hist = 2400 if quick else 12000
-    n_final = 1200 if quick else 6000
+    n_score = 3200 if quick else 24000
+    n_hist = 1600 if quick else 12000
+    n_final = 800 if quick else 6000
     runner.run_given(ctx, "score", score_cases(max_leaves, max_chars), check_score, n_score // ctx.nshards)
     runner.run_given(ctx, "history", history_cases(max_leaves, max_chars), check_history, n_hist // ctx.nshards)
     runner.run_given(ctx, "final", final_cases(max_leaves, max_chars), check_final, n_final // ctx.nshards)
